@@ -260,6 +260,7 @@ func (s *Sys) deliverAck(src *world.Chain, signer world.Account, msgs []sdk.Msg,
 	hp := sha256.Sum256(canon)
 	if pre[host.StoreKey][ck] != string(hp[:]) {
 		add("C02", "ack-accepted-without-matching-commitment", fmt.Sprintf("ack %s: commitment before was %x, message packet hashes to %x", what, pre[host.StoreKey][ck], hp))
+		add("C05", "commitment-removed-by-ack-of-a-different-packet", fmt.Sprintf("ack %s: commitment before was %x, message packet hashes to %x", what, pre[host.StoreKey][ck], hp))
 	}
 	if _, still := post[host.StoreKey][ck]; still {
 		add("C05", "ack-did-not-remove-commitment", fmt.Sprintf("ack %s accepted, commitment still stored", what))
